@@ -348,6 +348,7 @@ int __wrap_dup(int fd) {
 /* fcntl(F_DUPFD / F_DUPFD_CLOEXEC) is dup() by another name: the copy must be known to the seam, or reads and
  * writes on it would bypass it (no faults, no epoch bumps: a waiter in another thread would never be re-polled) */
 #include <stdarg.h>
+#include <stddef.h>
 extern int __real_fcntl(int, int, ...);
 extern int __real_fcntl64(int, int, ...);
 static int fcntl_common(int which, int fd, int cmd, long arg) {
@@ -440,6 +441,10 @@ extern int __real_bind(int, const struct sockaddr *, socklen_t);
 int __wrap_bind(int fd, const struct sockaddr *a, socklen_t l) {
     if (sim_cfg.active && sim_cfg.monitor) {
         sim_mon_attempt("net-listen", "bind", "");
+        /* binding a unix socket to a path (not an abstract name) creates a file-system entry */
+        if (a && a->sa_family == AF_UNIX && l > (socklen_t) offsetof(struct sockaddr_un, sun_path) &&
+                ((const struct sockaddr_un *) a)->sun_path[0] != '\0')
+            sim_mon_attempt("fs-write", "bind", ((const struct sockaddr_un *) a)->sun_path);
         errno = EACCES;
         return -1;
     }
